@@ -992,6 +992,10 @@ class _GenCore:
         return self._value
 
     def close(self):
+        import threading
+
+        if self._thread is threading.current_thread():
+            return  # dropped by its own body while that is running: there is nothing to wake, the body ends by itself
         if self._thread is not None and not self._finished:
             self._closing = True
             self._to_gen.release()
